@@ -26,6 +26,7 @@ CHECKS = {
     'C17': ('exploration', 'metamorphic: run of the renamed chart == original run with names substituted; host run == guest run mapped by the renaming function', 'metamorphic property testing (Hypothesis)'),
     'C15': ('exploration', 'model of the binding table plus one queue model per interpreter predicts deliveries to callables and every later consumed event; final drain', 'model-based property testing (Hypothesis) over bind/detach/queue/step sequences'),
     'C19': ('exploration', 'differential: per-step statuses reported by execute_bdd / the sismic-bdd entry point vs a direct evaluation of the same generated scenarios on a plain Interpreter following docs/behavior.rst; sismic.testing predicates vs direct evaluation', 'differential property testing (Hypothesis) of generated Gherkin scenarios'),
+    'C20': ('exploration', 'harness-owned thread schedules (baton scheduler, virtual time, deadlock detection) over AsyncRunner + client scripts at three granularities; executed vs reported steps, lifecycle hooks, pause/stop behaviour and a partial-order queue model over the observed call intervals', 'schedule-exploring property testing (Hypothesis-generated scripts and schedules under a deterministic scheduler)'),
 }
 NOT_YET = 'check not built yet in this round (planned, see DESIGN.md section 4)'
 
